@@ -63,6 +63,17 @@ Definition weekday (y m d : Z) : Z := (days_from_civil y m d + 6) mod 7.
 (* timetuple().tm_yday *)
 Definition day_of_year (y m d : Z) : Z := days_before_month y m + d.
 
+(* _ord2ymd, second half: month and day from the zero based day of the year *)
+Definition ord_month_day (leapyear : bool) (n : Z) : Z * Z :=
+  let mo := (n + 50) / 32 in                                   (* (n + 50) >> 5 *)
+  let preceding := days_before_month_tbl mo + (if (2 <? mo) && leapyear then 1 else 0) in
+  if n <? preceding then
+    let mo' := mo - 1 in
+    let dim := match mo' with 2 => if leapyear then 29 else 28
+               | 4 => 30 | 6 => 30 | 9 => 30 | 11 => 30 | _ => 31 end in
+    (mo', n - (preceding - dim) + 1)
+  else (mo, n - preceding + 1).
+
 (* _ord2ymd *)
 Definition civil_from_days (n0 : Z) : Z * Z * Z :=
   let n := n0 - 1 in
@@ -74,14 +85,7 @@ Definition civil_from_days (n0 : Z) : Z * Z * Z :=
   if (n1 =? 4) || (n100 =? 4) then (y - 1, 12, 31)
   else
     let leapyear := (n1 =? 3) && (negb (n4 =? 24) || (n100 =? 3)) in
-    let mo := (n + 50) / 32 in
-    let preceding := days_before_month_tbl mo + (if (2 <? mo) && leapyear then 1 else 0) in
-    if n <? preceding then
-      let mo' := mo - 1 in
-      let dim := match mo' with 2 => if leapyear then 29 else 28
-                 | 4 => 30 | 6 => 30 | 9 => 30 | 11 => 30 | _ => 31 end in
-      (y, mo', n - (preceding - dim) + 1)
-    else (y, mo, n - preceding + 1).
+    let '(mo, dd) := ord_month_day leapyear n in (y, mo, dd).
 
 Definition valid_date (y m d : Z) : Prop :=
   1 <= y <= 9999 /\ 1 <= m <= 12 /\ 1 <= d <= days_in_month y m.
@@ -525,4 +529,38 @@ Definition render_part (t : dt) (p : part) : str :=
   | PLit s => s
   | PQuoted s => s
   | PQuote => [c_quote]
+  end.
+
+(* what the scanner is expected to emit for a part *)
+Definition items_of (p : part) : list item :=
+  match p with
+  | PDir d => [Field (key d)]
+  | PLit s => List.map Out s
+  | PQuoted s => List.map Out s
+  | PQuote => [Out c_quote]
+  end.
+
+(* side conditions under which a list of parts can be told apart again in the written format:
+   literal text has no ASCII letter and no quote; quoted text is non-empty and does not begin with a quote
+   (''' would read as an escaped quote followed by an opening quote - the same text, but '''' would not);
+   two directives are not adjacent (their letters would run together); quoted text is not followed by
+   another quote ('a''b' is a'b, not ab). *)
+Definition part_ok (p : part) : Prop :=
+  match p with
+  | PLit s => s <> [] /\ Forall (fun c => is_alpha c = false /\ c <> c_quote) s
+  | PQuoted s => s <> [] /\ hd 0%N s <> c_quote
+  | _ => True
+  end.
+Definition is_dir (p : part) : bool := match p with PDir _ => true | _ => false end.
+Definition quote_head (p : part) : bool := match p with PQuoted _ | PQuote => true | _ => false end.
+Fixpoint separable (ps : list part) : Prop :=
+  match ps with
+  | [] => True
+  | p :: rest =>
+    part_ok p /\
+    match p, rest with
+    | PDir _, q :: _ => is_dir q = false
+    | PQuoted _, q :: _ => quote_head q = false
+    | _, _ => True
+    end /\ separable rest
   end.
